@@ -107,6 +107,24 @@ func c03Case(c *engine.Ctx, r universe.Recipe, entry string) {
 		}
 		ds := canon.Diff(want, got)
 		if len(ds) == 0 {
+			// the entries of a language list come back in the order they were stored (an ordered map, C19); a codec that goes
+			// through a Go map scrambles them at random, so lists of two or more entries are sent round 8 times
+			if canon.HasMultiLang(want) {
+				for round := 0; round < 8; round++ {
+					if round > 0 {
+						b, _ = gobEncode(entry, x)
+						y, err = gobDecode(entry, r.Struct.Type, b)
+						if err != nil {
+							break
+						}
+						got = canon.Of(y, canon.Gob)
+					}
+					if where := canon.OrderDiff(want, got); where != "" {
+						t.Fail("C03|gob-rt|"+r.Struct.Name+"|"+canon.LastTerm(where)+"|lang-order-changed", "the entries of %s came back in another order (round %d) via %s entry: %s", where, round, entry, got)
+						break
+					}
+				}
+			}
 			t.Outcome("round-trips")
 			return
 		}
